@@ -15,7 +15,7 @@ TRANSPARENT = re.compile(
     r'slice::<impl \[T\]>::(iter|to_vec)$|Iterator::(chain|cloned|collect)$|IntoIterator>::into_iter$|IntoIterator::into_iter$|'
     r'boxed::Box::<T>::new(_uninit)?$|boxed::box_assume_init_into_vec_unsafe$|slice::<impl \[T\]>::into_vec$|'
     r'as std::convert::From<&\[T\]>>::from$|as std::convert::From<&.*>>::from$|FromIterator<T>>::from_iter$|'
-    r'Vec::<T(, A)?>::(extend_from_slice|append|push)$|as std::iter::Extend<.*>>::extend$)')
+    r'Vec::<T(, A)?>::(extend_from_slice|append|push)$|as std::iter::Extend<.*>>::extend$|^std::slice::from_ref$)')
 
 
 def params_in(v, p=None):
@@ -135,39 +135,89 @@ def check_forward(ctx, rep, rule='T-forward'):
                % (m, m.capitalize(), found), loc=b.loc(b.j['line_lo']), reason='provenance', expected=m.capitalize(), found=found)
 
 
+def _eval_op_cond(v, op, variants):
+    """truth of a condition of trivial_result for operation `op`; None when it depends on anything else"""
+    x = strip_upd(v)
+    if x[0] == 'op' and x[1] == 'not':
+        r = _eval_op_cond(x[2], op, variants)
+        return None if r is None else (not r)
+    if x[0] == 'op' and x[1] in ('eq', 'ne') and len(x) == 4:
+        a, b = strip_upd(x[2]), strip_upd(x[3])
+        for p_, c_ in ((a, b), (b, a)):
+            name = c_[2] if c_[0] == 'agg' and not c_[4] else (c_[1][2] if c_[0] == 'c' and isinstance(c_[1], tuple) and c_[1][0] == 'enum' else None)
+            while p_[0] in ('deref', 'refval') and len(p_) > 1:
+                p_ = strip_upd(p_[1])
+            if p_[0] == 'param' and p_[2] == 'operation' and name in variants:
+                return (name == op) if x[1] == 'eq' else (name != op)
+        return None
+    if x[0] == 'op' and x[1] in ('bitand', 'bitor', 'bitxor') and len(x) == 4:
+        a, b = _eval_op_cond(x[2], op, variants), _eval_op_cond(x[3], op, variants)
+        if a is None or b is None:
+            return None
+        return {'bitand': a and b, 'bitor': a or b, 'bitxor': a != b}[x[1]]
+    if x[0] == 'discr':
+        y = strip_upd(x[1])
+        if y[0] == 'param' and y[2] == 'operation':
+            return ('idx', variants.index(op))
+    if sym.is_const(x):
+        return bool(x[1])
+    return None
+
+
 def check_trivial(ctx, rep, rule='T-trivial'):
+    """what trivial_result returns, per operation: the paths are selected by evaluating their conditions for each of the four
+    operations (match, if-chains and flags are all the same to this), the returned list is characterised by the parameters
+    it is built from and the callees it passes through"""
     b, ps = rep.explore(ctx, TRIVIAL, rule)
     if b is None:
         return
     variants = ctx.facts().enum_variants('boolean::Operation') or []
     seen = set()
-    for p in ps:
-        if p.end != 'return':
-            continue
-        op = None
-        for (v, c) in p.conds:
-            x = strip_upd(v)
-            if x[0] == 'discr' and strip_upd(x[1])[0] == 'param' and c[0] == 'eq':
-                op = variants[c[1]] if c[1] < len(variants) else None
-        if op is None:
-            rep.ob(rule, 'dispatch-on-operation', False, 'a path of trivial_result is not selected by the operation alone: %s'
-                   % [show(noepoch(v))[:40] for v, _ in p.conds], loc=b.loc(b.j['line_lo']), reason='cannot-tabulate')
+    for op in variants:
+        outs = []
+        for p in ps:
+            if p.end != 'return':
+                continue
+            consistent = True
+            for (v, c) in p.conds:
+                r = _eval_op_cond(v, op, variants)
+                if r is None:
+                    rep.ob(rule, 'dispatch-on-operation', False, 'a path of trivial_result is not selected by the operation alone: %s'
+                           % show(noepoch(v))[:80], loc=b.loc(b.j['line_lo']), reason='cannot-tabulate')
+                    consistent = False
+                    break
+                if isinstance(r, tuple):
+                    ok = (c[0] == 'eq' and int(c[1]) == r[1]) or (c[0] == 'notin' and r[1] not in [int(z) for z in c[1]])
+                else:
+                    ok = (c[0] == 'eq' and bool(c[1]) == r) or (c[0] == 'notin' and int(r) not in [int(z) for z in c[1]])
+                if not ok:
+                    consistent = False
+                    break
+            if consistent:
+                outs.append(p)
+        if not outs:
             continue
         seen.add(op)
-        r = strip_upd(p.ret)
-        payload = r[4][0] if r[0] == 'agg' and r[5].endswith('MultiPolygon') and r[4] else r
-        ps_ = params_in(payload, p)
-        extra = sorted(c for c in calls_in(payload, p) if not TRANSPARENT.search(c) and not c.endswith('Vec::<T>::new'))
-        exp = {'Intersection': set(), 'Difference': {'subject'}, 'Union': {'subject', 'clipping'}, 'Xor': {'subject', 'clipping'}}[op]
-        ok = ps_ == exp and not extra
-        if op == 'Intersection':
-            pl = strip_upd(payload)
-            ok = ok and (pl[0] == 'vec' and pl[1] == ())
+        exp = {'Intersection': set(), 'Difference': {'subject'}, 'Union': {'subject', 'clipping'}, 'Xor': {'subject', 'clipping'}}.get(op, set())
+        ok = True
+        found, extra_all = set(), set()
+        for p in outs:
+            r = strip_upd(p.ret)
+            payload = r[4][0] if r[0] == 'agg' and r[5].endswith('MultiPolygon') and r[4] else r
+            ps_ = params_in(payload, p) - {'operation'}
+            extra = sorted(c for c in calls_in(payload, p) if not TRANSPARENT.search(c) and not re.search(r'Vec::<T>::(new|with_capacity)$', c)
+                           and not re.search(r'(::len$|ops::(arith::)?Add::add$)', c))
+            found |= ps_
+            extra_all |= set(extra)
+            ok = ok and ps_ == exp and not extra
+            if op == 'Intersection':
+                pl = strip_upd(payload)
+                ok = ok and ((pl[0] == 'vec' and pl[1] == ()) or not ps_)
         rep.ob(rule, op, ok,
                'for disjoint bounding boxes %s must return %s unchanged; it returns a value built from %s%s'
                % (op, {'Intersection': 'the empty set', 'Difference': 'the subject', 'Union': 'subject ++ clipping',
-                       'Xor': 'subject ++ clipping'}[op], sorted(ps_) or 'nothing', ' through %s' % extra if extra else ''),
-               loc=b.loc(b.j['line_lo']), reason='table-row', expected=sorted(exp), found=sorted(ps_))
+                       'Xor': 'subject ++ clipping'}.get(op), sorted(found) or 'nothing', ' through %s' % sorted(extra_all) if extra_all else ''),
+               loc=b.loc(b.j['line_lo']), reason='table-row', expected=sorted(exp), found=sorted(found))
     rep.rows_compared += len(seen)
     rep.ob(rule, 'all-operations-covered', seen == set(variants), 'trivial_result handles %s of %s' % (sorted(seen), variants),
            reason='floor')
